@@ -28,6 +28,7 @@ import (
 	"encoding/base64"
 	"encoding/json"
 	"fmt"
+	"io"
 	"math/big"
 	mrand "math/rand"
 	"os"
@@ -181,6 +182,81 @@ func stdSign(alg int, priv crypto.Signer, data []byte) []byte {
 	return s
 }
 
+// shortECDSA makes a valid ECDSA signature over digest whose R (which = 'r') or S (which = 's') is `short' octets shorter
+// than the field: the nonce walks k, k+1, k+2, ... (one point addition per step) until the value has leading zero octets.
+// Only good for tests -- the nonces of successive calls are unrelated, those inside one call are not.
+func shortECDSA(priv *ecdsa.PrivateKey, digest []byte, which byte, short int) (*big.Int, *big.Int) {
+	c := priv.Curve
+	p := c.Params()
+	size := (p.BitSize + 7) / 8
+	z := new(big.Int).SetBytes(digest)
+	if ex := len(digest)*8 - p.N.BitLen(); ex > 0 {
+		z.Rsh(z, uint(ex))
+	}
+	k, err := rand.Int(rand.Reader, new(big.Int).Sub(p.N, big.NewInt(1<<30)))
+	if err != nil {
+		hx.Die("rand: %v", err)
+	}
+	k.Add(k, big.NewInt(1))
+	x, y := c.ScalarBaseMult(k.Bytes())
+	one := big.NewInt(1)
+	r, sv, t := new(big.Int), new(big.Int), new(big.Int)
+	for step := 0; step < 1<<26; step++ {
+		r.Mod(x, p.N)
+		if r.Sign() != 0 && (which != 'r' || len(r.Bytes()) == size-short) {
+			t.Mul(r, priv.D)
+			t.Add(t, z)
+			sv.ModInverse(k, p.N)
+			sv.Mul(sv, t)
+			sv.Mod(sv, p.N)
+			if sv.Sign() != 0 && (which != 's' || len(sv.Bytes()) == size-short) {
+				if !ecdsa.Verify(&priv.PublicKey, digest, r, sv) {
+					hx.Die("shortECDSA made an invalid signature")
+				}
+				return new(big.Int).Set(r), new(big.Int).Set(sv)
+			}
+		}
+		k.Add(k, one)
+		x, y = c.Add(x, y, p.Gx, p.Gy)
+	}
+	hx.Die("no short signature found")
+	return nil, nil
+}
+
+// shortSigner is a crypto.Signer handing such signatures (ASN.1, as crypto/ecdsa does) to the code under test.
+type shortSigner struct {
+	priv  *ecdsa.PrivateKey
+	which byte
+	short int
+}
+
+func (s *shortSigner) Public() crypto.PublicKey { return &s.priv.PublicKey }
+func (s *shortSigner) Sign(_ io.Reader, digest []byte, _ crypto.SignerOpts) ([]byte, error) {
+	r, sv := shortECDSA(s.priv, digest, s.which, s.short)
+	return asn1.Marshal(struct{ R, S *big.Int }{r, sv})
+}
+
+// parseShort reads "ecdsa-short-r2" -> ('r', 2).
+func parseShort(tag string) (byte, int, bool) {
+	if !strings.HasPrefix(tag, "ecdsa-short-") || len(tag) != len("ecdsa-short-")+2 {
+		return 0, 0, false
+	}
+	return tag[len(tag)-2], int(tag[len(tag)-1] - '0'), true
+}
+
+// stdSignShort: RFC 6605 s.4 encoding (fixed width R | S) of a short-R / short-S signature, made without the library.
+func stdSignShort(alg int, priv crypto.Signer, data []byte, tag string) []byte {
+	which, short, ok := parseShort(tag)
+	ep, isEC := priv.(*ecdsa.PrivateKey)
+	if !ok || !isEC {
+		hx.Die("short signature %q needs an ECDSA key", tag)
+	}
+	d, _ := digest(alg, data)
+	r, sv := shortECDSA(ep, d, which, short)
+	n := (ep.Curve.Params().BitSize + 7) / 8
+	return append(r.FillBytes(make([]byte, n)), sv.FillBytes(make([]byte, n))...)
+}
+
 var algByName = map[string]int{"RSASHA1": 5, "RSASHA256": 8, "RSASHA512": 10, "RSASHA256-2048": 8,
 	"ECDSAP256SHA256": 13, "ECDSAP384SHA384": 14, "ED25519": 15}
 
@@ -277,6 +353,7 @@ type event struct {
 	Forge    bool   `json:"forge"`
 	Spell    string `json:"spell"` // "" | "ddd-upper": owner names spelled with \DDD for capital letters (same octets)
 	KeyName  string `json:"keyname"`
+	Signer   string `json:"signer"` // "" | "ecdsa-short-r1" ...: how the signature was (or is to be) made
 	Data     hx.B   `json:"data"`
 	Odata    hx.B   `json:"odata"` // the specification's octets and the real signature of the sign event this variant derives from
 	Osig     hx.B   `json:"osig"`
@@ -866,12 +943,18 @@ func (rc *recorder) one(ci int, c *caseT, alg string, privs map[string]crypto.Si
 	}
 	req := clone(&rec{Owner: []hx.B{}, Class: 0, F: wire.Fields{"TypeCovered": 0, "Algorithm": an, "Labels": 0, "OrigTtl": be32(c.origT),
 		"Expiration": be32(c.exp), "Inception": be32(c.inc), "KeyTag": tag, "SignerName": toB(c.zone), "Signature": hx.B{}}})
-	sig := goSig(req)
-	sig.Hdr = dns.RR_Header{}
 	set := goSet(c.rrset, "")
-	var err error
-	if p := hx.Catch(func() { err = sig.Sign(priv, set) }); p != "" {
-		rc.sum.Mis("dnssec/sign-panic:"+L.Mnemonic(c.t), "Sign panicked: "+p, map[string]interface{}{"case": ci, "alg": alg})
+	doSign := func(rq *rec, signer crypto.Signer) (*dns.RRSIG, error, string) {
+		sg := goSig(rq)
+		sg.Hdr = dns.RR_Header{}
+		var e error
+		p := hx.Catch(func() { e = sg.Sign(signer, set) })
+		return sg, e, p
+	}
+	rc.special(ci, c, alg, priv, key, req, doSign)
+	sig, err, pan := doSign(req, priv)
+	if pan != "" {
+		rc.sum.Mis("dnssec/sign-panic:"+L.Mnemonic(c.t), "Sign panicked: "+pan, map[string]interface{}{"case": ci, "alg": alg})
 		return
 	}
 	ev := &event{Ev: "sign", Alg: alg, Case: ci, Rrset: c.rrset, Key: key, Req: req, Ok: err == nil, KeyName: alg}
@@ -899,6 +982,78 @@ func (rc *recorder) one(ci int, c *caseT, alg string, privs map[string]crypto.Si
 	ev.Out = outRec
 	of := rc.emit(ev)
 	rc.variants(of, ci, c, alg, privs, outRec, key, r, flips)
+}
+
+// special: signatures whose integers have leading zero octets, the corner of the fixed-width encodings (RFC 6605 s.4,
+// RFC 3110 s.3).  ECDSA: the real Sign is handed a signer whose R resp. S is short by one (cases 0..3) and by two (cases 0..1)
+// octets, and the same shapes are forged with the standard library for Verify.  RSA (cases 0..1): the inception time is
+// stepped until the real signature starts with a zero octet.  Each signature is judged like any other: the standard library
+// over the specification's octets, then real Verify.
+func (rc *recorder) special(ci int, c *caseT, alg string, priv crypto.Signer, key, req *rec, doSign func(*rec, crypto.Signer) (*dns.RRSIG, error, string)) {
+	if ci >= 4 {
+		return
+	}
+	one := func(rq *rec, signer crypto.Signer, tag, kind string) {
+		sg, err, pan := doSign(rq, signer)
+		if pan != "" {
+			rc.sum.Mis("dnssec/sign-panic:"+kind, "Sign panicked: "+pan, map[string]interface{}{"case": ci, "alg": alg})
+			return
+		}
+		ev := &event{Ev: "sign", Alg: alg, Case: ci, Rrset: c.rrset, Key: key, Req: rq, Ok: err == nil, KeyName: alg, Signer: tag, Kind: kind}
+		if err != nil {
+			ev.Err, ev.Out = err.Error(), rq
+			rc.emit(ev)
+			return
+		}
+		sg.Hdr.Rrtype = dns.TypeRRSIG
+		ev.Out = projSig(sg)
+		of := rc.emit(ev)
+		rc.emit(&event{Ev: "check", Of: of, Kind: "sig-" + kind, Alg: alg, Case: ci, Rrset: c.rrset, Key: key, Sig: ev.Out, KeyName: alg})
+		if _, _, ok := parseShort(tag); ok { // the same shape made by the standard library, for Verify
+			f := clone(ev.Out)
+			f.F["Signature"] = []interface{}{}
+			rc.emit(&event{Ev: "check", Of: of, Kind: "forge-" + kind, Alg: alg, Case: ci, Rrset: c.rrset, Key: key, Sig: f, Forge: true, KeyName: alg, Signer: tag})
+		}
+	}
+	switch p := priv.(type) {
+	case *ecdsa.PrivateKey:
+		for _, which := range []byte{'r', 's'} {
+			for short := 1; short <= 2; short++ {
+				if short == 2 && ci >= 2 {
+					continue
+				}
+				tag := fmt.Sprintf("ecdsa-short-%c%d", which, short)
+				one(req, &shortSigner{p, which, short}, tag, fmt.Sprintf("ecdsa-short-%c", which))
+			}
+		}
+	case *rsa.PrivateKey:
+		if ci >= 2 {
+			return
+		}
+		base := uint32(beUintB(bytesOf(req.F["Inception"])))
+		for try := uint32(1); try < 6000; try++ {
+			rq := clone(req)
+			rq.F["Inception"] = anyBytes(be32(base + try).Bytes())
+			sg, err, pan := doSign(rq, priv)
+			if err != nil || pan != "" {
+				return
+			}
+			raw, derr := base64.StdEncoding.DecodeString(sg.Signature)
+			if derr == nil && len(raw) > 0 && raw[0] == 0 {
+				one(rq, priv, "rsa-leading-zero", "rsa-leading-zero") // PKCS#1 v1.5 is deterministic: the same signature again
+				return
+			}
+		}
+		rc.counts["rsa-leading-zero-not-found"]++
+	}
+}
+
+func beUintB(b []byte) uint64 {
+	var v uint64
+	for _, c := range b {
+		v = v<<8 | uint64(c)
+	}
+	return v
 }
 
 func (rc *recorder) variants(of, ci int, c *caseT, alg string, privs map[string]crypto.Signer, sig, key *rec, r *mrand.Rand, flips bool) {
@@ -1198,8 +1353,13 @@ func finish(eventsPath, emitPath, keysPath, verifyPath string) {
 			counts["sign-checked"]++
 			// (1) the real signature must be a signature of the octets the specification prescribes
 			if !stdVerify(intOf(e.Out.F["Algorithm"]), bytesOf(e.Key.F["PublicKey"]), m.Data.Bytes(), bytesOf(e.Out.F["Signature"])) {
-				sum.Mis("dnssec/sign-not-over-canonical-octets:"+m.Feature,
-					"the standard library rejects the signature made by Sign over the RFC 4034 s.3.1.8.1 octets of the specification", brief)
+				if e.Signer != "" {
+					sum.Mis("dnssec/sign-signature-encoding:"+e.Kind,
+						"the standard library rejects the signature Sign made from a "+e.Signer+" primitive signature (fixed-width encoding of integers with leading zero octets)", brief)
+				} else {
+					sum.Mis("dnssec/sign-not-over-canonical-octets:"+m.Feature,
+						"the standard library rejects the signature made by Sign over the RFC 4034 s.3.1.8.1 octets of the specification", brief)
+				}
 			}
 		case "check":
 			sum.Evaluations++
@@ -1215,7 +1375,11 @@ func finish(eventsPath, emitPath, keysPath, verifyPath string) {
 					return
 				}
 				sig = clone(sig)
-				sig.F["Signature"] = anyBytes(stdSign(an, priv, m.Data.Bytes()))
+				if e.Signer != "" {
+					sig.F["Signature"] = anyBytes(stdSignShort(an, priv, m.Data.Bytes(), e.Signer))
+				} else {
+					sig.F["Signature"] = anyBytes(stdSign(an, priv, m.Data.Bytes()))
+				}
 			}
 			sigok := len(m.Data) > 0 && stdVerify(an, bytesOf(e.Key.F["PublicKey"]), m.Data.Bytes(), bytesOf(sig.F["Signature"]))
 			if e.Forge && !sigok && intOf(e.Key.F["Algorithm"]) == an {
